@@ -56,6 +56,15 @@ def gen(tier, rng, boost=1):
     for _ in range(4 * n):
         for src in ("mem", "stream"):
             ops.append(f"rt.any csv {src} rows256 {rng.randrange(1, 2 ** 31)}")
+    # multimaps with equal keys (their relative order is part of the value); long vectors of time points (MsgPack ext headers at every
+    # offset relative to the stream cache)
+    for archive in ("mp", "json", "xml"):
+        for _ in range(2 * n):
+            for src in ("mem", "stream"):
+                ops.append(f"rt.any {archive} {src} mmsi {rng.randrange(1, 2 ** 31)}")
+    for _ in range(6 * n):
+        for src in ("mem", "stream"):
+            ops.append(f"rt.any mp {src} vtp {rng.randrange(1, 2 ** 31)}")
     ops += gen_c01_jsonxml(tier, rng, boost)
     return ops
 
